@@ -78,3 +78,13 @@ CASES += [
     t("rate matrix copy written with the float builtin", RM,
       "            data = numpy.array(data, dtype=numpy.float64)\n", "            data = numpy.array(data, dtype=float)\n"),
 ]
+
+_PP = "quantarhei/qm/propagators/poppropagator.py"
+CASES += [
+    {"name": "populations renormalised after every step (seeded change of round 6)", "kind": "mutant", "rule": "C17-F", "edits": [
+        (_PP, "            pops[indx,:] = rho2                        \n", "            rho2 = rho2/numpy.sum(rho2)\n            rho1 = rho2\n            pops[indx,:] = rho2\n", 1)]},
+    {"name": "populations clipped at zero", "kind": "mutant", "rule": "C17-F", "edits": [
+        (_PP, "            pops[indx,:] = rho2                        \n", "            pops[indx,:] = numpy.clip(rho2, 0.0, None)\n", 1)]},
+    {"name": "step accumulated through a scaled copy", "kind": "twin", "edits": [
+        (_PP, "            pops[indx,:] = rho2                        \n", "            pops[indx,:] = 1.0*rho2\n", 1)]},
+]
